@@ -243,6 +243,12 @@ def loop_progress(eng, fi: FuncInfo, loop: ast.While) -> Tuple[bool, str, str]:
         if isinstance(n, ast.Call) and isinstance(n.func, ast.Attribute) and n.func.attr in ("find", "rfind") and isinstance(n.func.value, ast.Name):
             cursor = n.func.value.id
     cmps = list(test.values) if isinstance(test, ast.BoolOp) and isinstance(test.op, ast.And) else [test]
+    # `while s:` — a text cursor tested for emptiness without len(): s is re-assigned a slice of itself in the body
+    for c_ in cmps:
+        if cursor is None and isinstance(c_, ast.Name):
+            if any(isinstance(n, ast.Assign) and any(isinstance(t, ast.Name) and t.id == c_.id for t in n.targets) and isinstance(n.value, ast.Subscript)
+                   and isinstance(n.value.value, ast.Name) and n.value.value.id == c_.id and isinstance(n.value.slice, ast.Slice) for n in own_nodes(loop)):
+                cursor = c_.id
     flipop = {ast.Lt: ast.Gt, ast.Gt: ast.Lt, ast.LtE: ast.GtE, ast.GtE: ast.LtE}
     for cmp_ in cmps:
         if counter is not None:
